@@ -220,6 +220,7 @@ func runC18(c *Ctx) {
 	c.r1810()
 	c.r1111("R18.11")
 	c.r1812()
+	c.r1813()
 }
 
 // R18.7 / R18.8: Mediatype finds the quoted strings and leaves them alone.
@@ -548,4 +549,82 @@ func (c *Ctx) r1812() {
 		}
 	}
 	c.R.Floor(rule, "lengths computed from the payload", n, 2)
+}
+
+// R18.13: the percent-encoded length is counted with the table the encoder uses.
+func (c *Ctx) r1813() {
+	const rule = "R18.13"
+	c.R.Rule(rule, "minify.DataURI predicts the length of the percent-encoded payload by counting, per byte, two more when a table says the byte is escaped, and later encodes with parse.EncodeURL(data, table). The prediction is the encoder's length only when both use the same table: counting with a table that also marks the apostrophe chose base64 for SVG payloads with single-quoted attributes although the percent encoding was shorter. Every table indexed with the loop byte in a range over the payload is the object that is handed to parse.EncodeURL")
+	pk := c.pkg(rule, "")
+	if pk == nil {
+		return
+	}
+	info := pk.TypesInfo
+	fd := c.fn(rule, pk, "DataURI")
+	if fd == nil {
+		return
+	}
+	objOfExpr := func(e ast.Expr) types.Object {
+		switch v := ast.Unparen(e).(type) {
+		case *ast.Ident:
+			return info.Uses[v]
+		case *ast.SelectorExpr:
+			return info.Uses[v.Sel]
+		}
+		return nil
+	}
+	var enc []types.Object
+	for _, call := range findCalls(info, fd.Body, false, load.ParseMod+".EncodeURL") {
+		if len(call.Args) == 2 {
+			if o := objOfExpr(call.Args[1]); o != nil {
+				enc = append(enc, o)
+			}
+		}
+	}
+	if len(enc) == 0 {
+		c.R.Unres(rule, "minify.DataURI/encoder table", c.pos(fd), "no call parse.EncodeURL(data, table) found")
+		return
+	}
+	n := 0
+	ast.Inspect(fd.Body, func(x ast.Node) bool {
+		rs, ok := x.(*ast.RangeStmt)
+		if !ok || rs.Value == nil {
+			return true
+		}
+		vid, ok := rs.Value.(*ast.Ident)
+		if !ok {
+			return true
+		}
+		loopByte := info.Defs[vid]
+		ast.Inspect(rs.Body, func(z ast.Node) bool {
+			ix, ok := z.(*ast.IndexExpr)
+			if !ok {
+				return true
+			}
+			iid, ok := ast.Unparen(ix.Index).(*ast.Ident)
+			if !ok || info.Uses[iid] != loopByte {
+				return true
+			}
+			if arr, ok := info.TypeOf(ix.X).Underlying().(*types.Array); !ok || !isBoolType(arr.Elem()) {
+				return true
+			}
+			n++
+			same := false
+			for _, o := range enc {
+				if objOfExpr(ix.X) == o {
+					same = true
+				}
+			}
+			c.R.Check(same, rule, fmt.Sprintf("minify.DataURI/escape table of the length count#%d is the encoder's", n), c.pos(ix), "the same object as the second argument of parse.EncodeURL",
+				"the percent-encoded length is predicted with "+str(ix.X)+" while the payload is encoded with another table: the prediction is not the length that is written, and the longer encoding can be chosen or the input returned longer than given")
+			return true
+		})
+		return true
+	})
+	c.R.Floor(rule, "table look-ups in the length count", n, 1)
+}
+
+func isBoolType(t types.Type) bool {
+	b, ok := t.Underlying().(*types.Basic)
+	return ok && b.Kind() == types.Bool
 }
